@@ -1,5 +1,664 @@
-use crate::Ctx;
+//! C06 - the packet reader is total and stays inside its buffers.
+//!
+//! Generator: every byte string of length 0..=3 x token hint x protocol; structured hostile input
+//! (valid packets of every kind with field corruptions, truncation, extension, toggled compression
+//! flag); crafted Huffman bodies (expand beyond a packet, truncated, no EOF); random bytes 0..3000.
+//! Oracle: no panic; iterator steps bounded; every returned slice lies inside the input or inside the
+//! caller's scratch window (canaries intact); whatever is accepted can be written again and reads
+//! back as the same value.
 
-pub fn run(_ctx: &Ctx) {
-    // not built yet
+use crate::c05_packet_rt::{pcase_strategy, seen6, seen7, write_case, Ctrl, PCase, Seen};
+use crate::util::{hex, slice_range, within, Canary, Warnings};
+use crate::{burn, ensure, pick, set_fuel, unlimited_fuel, Ctx, Outcome, PResult};
+use libtw2_huffman::instances::TEEWORLDS as HUFFMAN;
+use libtw2_net::protocol as p6;
+use libtw2_net::protocol7 as p7;
+use proptest::prelude::*;
+use serde::{Deserialize, Serialize};
+use serde_json::json;
+
+#[derive(Default, Clone, Debug)]
+pub struct ReadStats {
+    pub accepted: bool,
+    pub error: Option<String>,
+    pub decompressed: bool,
+    pub chunks: usize,
+    pub kind: &'static str,
+}
+
+thread_local! {
+    static POOL: std::cell::RefCell<Vec<Canary>> = std::cell::RefCell::new(Vec::new());
+}
+
+/// A canary window of `len` bytes from a per-thread pool (allocation per call would dominate the
+/// exhaustive sweeps). The guard bytes are verified by the caller after every library call.
+fn take_canary(len: usize) -> Canary {
+    POOL.with(|p| {
+        let mut p = p.borrow_mut();
+        if let Some(i) = p.iter().position(|c| c.len == len) {
+            p.swap_remove(i)
+        } else {
+            Canary::new(len)
+        }
+    })
+}
+
+fn give_canary(c: Canary) {
+    if c.intact() {
+        POOL.with(|p| {
+            let mut p = p.borrow_mut();
+            if p.len() < 8 {
+                p.push(c);
+            }
+        });
+    }
+}
+
+fn in_bounds(s: &[u8], input: (usize, usize), scratch: (usize, usize)) -> bool {
+    within(s, input) || within(s, scratch)
+}
+
+/// The totality / provenance / accept=>rewrite oracle for 0.6. `hint`: 0 = None, 1 = Some(false), 2 = Some(true).
+pub fn check_read6(data: &[u8], hint: u8, scratch_len: usize) -> Result<ReadStats, String> {
+    let hint_v = match hint % 3 {
+        0 => None,
+        1 => Some(false),
+        _ => Some(true),
+    };
+    let mut st = ReadStats::default();
+    let mut can = take_canary(scratch_len);
+    let scratch_range = can.range();
+    let input_range = slice_range(data);
+    let mut w = Warnings::new();
+    let compressed_flag = data.len() >= 3 && data[0] & 0x80 != 0 && data[0] & 0x20 == 0 && data.len() <= 1400;
+    st.decompressed = compressed_flag;
+    // auxiliary entry points
+    let _ = p6::Packet::is_initial(data);
+    {
+        let mut aux = take_canary(scratch_len);
+        let r = p6::Packet::decompress_if_needed(data, aux.window());
+        ensure!(aux.intact(), "0.6 decompress_if_needed wrote outside the scratch buffer");
+        let r = r.map_err(|_| ());
+        give_canary(aux);
+        if let Ok(true) = r {
+            ensure!(compressed_flag, "0.6 decompress_if_needed reports a decompression for a packet without the compression flag");
+        }
+    }
+    if !compressed_flag {
+        // documented precondition: only for packets that are not compressed
+        let mut w2 = Warnings::new();
+        let r = p6::Packet::read_panic_on_decompression(&mut w2, data, hint_v);
+        if let Ok(p) = &r {
+            check_slices6(p, input_range, (0, 0))?;
+        }
+    }
+    let res = p6::Packet::read(&mut w, data, hint_v, can.window());
+    let seen = match &res {
+        Ok(p) => {
+            check_slices6(p, input_range, scratch_range)?;
+            Some(seen6(p))
+        }
+        Err(e) => {
+            st.error = Some(format!("{:?}", e));
+            None
+        }
+    };
+    // chunk iterator on whatever was accepted
+    if let Ok(p6::Packet::Connected(p6::ConnectedPacket { type_: p6::ConnectedPacketType::Chunks(_, n, payload), .. })) = &res {
+        let mut it = p6::ChunksIter::new(payload, *n);
+        let hint_len = it.len();
+        let mut cw = Warnings::new();
+        let mut steps = 0;
+        set_fuel(payload.len() as i64 + 8);
+        while let Some(c) = it.next_warn(&mut cw) {
+            burn();
+            steps += 1;
+            ensure!(in_bounds(c.data, slice_range(payload), (0, 0)), "0.6 chunk data lies outside the payload slice");
+            ensure!(c.data.len() < 1024, "0.6 chunk of {} bytes", c.data.len());
+            if let Some((seq, _)) = c.vital {
+                ensure!(seq < 1024, "0.6 chunk sequence {} out of range", seq);
+            }
+        }
+        unlimited_fuel();
+        ensure!(it.next_warn(&mut cw).is_none(), "0.6 chunk iterator yields again after returning None");
+        ensure!(hint_len == steps, "0.6 ChunksIter::len() = {} but it yields {} chunks", hint_len, steps);
+        ensure!(it.pos() <= payload.len(), "0.6 ChunksIter::pos() beyond the payload");
+        st.chunks = steps;
+    }
+    drop(res);
+    ensure!(can.intact(), "0.6 Packet::read wrote outside the {}-byte scratch buffer it was given", scratch_len);
+    give_canary(can);
+    if let Some(seen) = seen {
+        st.accepted = true;
+        st.kind = kind_of(&seen);
+        rewrite6(&seen).map_err(|e| format!("accepted by the 0.6 reader (hint {:?}) but {}; input [{}]", hint_v, e, hex(&data[..data.len().min(64)])))?;
+    }
+    Ok(st)
+}
+
+fn kind_of(s: &Seen) -> &'static str {
+    match s {
+        Seen::Connless(..) => "connless",
+        Seen::Control { ctrl: Ctrl::Close(_), .. } => "close",
+        Seen::Control { .. } => "control",
+        Seen::Chunks { .. } => "chunks",
+    }
+}
+
+fn check_slices6(p: &p6::Packet, input: (usize, usize), scratch: (usize, usize)) -> Result<(), String> {
+    match p {
+        p6::Packet::Connless(d) => ensure!(in_bounds(d, input, scratch), "0.6 connless payload slice lies outside input and scratch buffer"),
+        p6::Packet::Connected(c) => match c.type_ {
+            p6::ConnectedPacketType::Chunks(_, _, d) => ensure!(in_bounds(d, input, scratch), "0.6 chunk payload slice lies outside input and scratch buffer"),
+            p6::ConnectedPacketType::Control(p6::ControlPacket::Close(r)) => {
+                ensure!(in_bounds(r, input, scratch), "0.6 close reason slice lies outside input and scratch buffer");
+                ensure!(r.len() <= 127 && !r.contains(&0), "0.6 close reason of {} bytes / with NUL accepted", r.len());
+            }
+            _ => {}
+        },
+    }
+    Ok(())
+}
+
+fn check_slices7(p: &p7::Packet, input: (usize, usize), scratch: (usize, usize)) -> Result<(), String> {
+    match p {
+        p7::Packet::Connless(c) => ensure!(in_bounds(c.payload, input, scratch), "0.7 connless payload slice lies outside input and scratch buffer"),
+        p7::Packet::Connected(c) => match c.type_ {
+            p7::ConnectedPacketType::Chunks(_, _, d) => ensure!(in_bounds(d, input, scratch), "0.7 chunk payload slice lies outside input and scratch buffer"),
+            p7::ConnectedPacketType::Control(p7::ControlPacket::Close(r)) => {
+                ensure!(in_bounds(r, input, scratch), "0.7 close reason slice lies outside input and scratch buffer");
+                ensure!(r.len() <= 127 && !r.contains(&0), "0.7 close reason of {} bytes / with NUL accepted", r.len());
+            }
+            _ => {}
+        },
+    }
+    Ok(())
+}
+
+/// accept => rewrite: write the accepted value, read it back with the true token mode, compare.
+fn rewrite6(seen: &Seen) -> Result<(), String> {
+    let mut out = [0u8; 2048];
+    let written: Vec<u8> = {
+        use p6::*;
+        let r = crate::guard(|| match seen {
+            Seen::Connless(d, _) => Packet::Connless(d).write(&mut out[..]).map(|b| b.to_vec()),
+            Seen::Control { ack, token, ctrl, .. } => {
+                let cp = match ctrl {
+                    Ctrl::KeepAlive => ControlPacket::KeepAlive,
+                    Ctrl::Connect => ControlPacket::Connect,
+                    Ctrl::ConnectAcceptOrToken => ControlPacket::ConnectAccept,
+                    Ctrl::Accept => ControlPacket::Accept,
+                    Ctrl::Close(r) => ControlPacket::Close(r),
+                };
+                Packet::Connected(ConnectedPacket { ack: *ack, token: token.map(Token), type_: ConnectedPacketType::Control(cp) }).write(&mut out[..]).map(|b| b.to_vec())
+            }
+            Seen::Chunks { ack, token, request_resend, num_chunks, payload } => {
+                Packet::Connected(ConnectedPacket { ack: *ack, token: token.map(Token), type_: ConnectedPacketType::Chunks(*request_resend, *num_chunks, payload) }).write(&mut out[..]).map(|b| b.to_vec())
+            }
+        });
+        match r {
+            Ok(Ok(b)) => b,
+            Ok(Err(e)) => return Err(format!("writing the accepted value {:?} fails: {:?}", short(seen), e)),
+            Err(p) => return Err(format!("writing the accepted value {:?} panics: {}", short(seen), p)),
+        }
+    };
+    let has_token = match seen {
+        Seen::Connless(..) => false,
+        Seen::Control { token, .. } | Seen::Chunks { token, .. } => token.is_some(),
+    };
+    let mut scratch = [0u8; 2048];
+    let mut w = Warnings::new();
+    match p6::Packet::read(&mut w, &written, Some(has_token), &mut scratch[..]) {
+        Ok(p) => {
+            let again = seen6(&p);
+            if &again != seen {
+                return Err(format!("written out and read back it is a different value: {:?} vs {:?}", short(seen), short(&again)));
+            }
+            Ok(())
+        }
+        Err(e) => Err(format!("written out it is rejected on read-back: {:?} for {:?}", e, short(seen))),
+    }
+}
+
+fn rewrite7(seen: &Seen) -> Result<(), String> {
+    let mut out = [0u8; 2048];
+    let written: Vec<u8> = {
+        use p7::*;
+        let r = crate::guard(|| match seen {
+            Seen::Connless(d, t) => {
+                let (t, rt) = t.unwrap();
+                Packet::Connless(ConnlessPacket { payload: d, token: Token(t), response_token: Token(rt) }).write(&mut out[..]).map(|b| b.to_vec())
+            }
+            Seen::Control { ack, token, ctrl, response_token } => {
+                let rt = Token(response_token.unwrap_or([1, 1, 1, 1]));
+                let cp = match ctrl {
+                    Ctrl::KeepAlive => ControlPacket::KeepAlive,
+                    Ctrl::Connect => ControlPacket::Connect(rt),
+                    Ctrl::ConnectAcceptOrToken => ControlPacket::Token(rt),
+                    Ctrl::Accept => ControlPacket::Accept,
+                    Ctrl::Close(r) => ControlPacket::Close(r),
+                };
+                Packet::Connected(ConnectedPacket { ack: *ack, token: Token(token.unwrap()), type_: ConnectedPacketType::Control(cp) }).write(&mut out[..]).map(|b| b.to_vec())
+            }
+            Seen::Chunks { ack, token, request_resend, num_chunks, payload } => {
+                Packet::Connected(ConnectedPacket { ack: *ack, token: Token(token.unwrap()), type_: ConnectedPacketType::Chunks(*request_resend, *num_chunks, payload) }).write(&mut out[..]).map(|b| b.to_vec())
+            }
+        });
+        match r {
+            Ok(Ok(b)) => b,
+            Ok(Err(e)) => return Err(format!("writing the accepted value {:?} fails: {:?}", short(seen), e)),
+            Err(p) => return Err(format!("writing the accepted value {:?} panics: {}", short(seen), p)),
+        }
+    };
+    let mut scratch = [0u8; 2048];
+    let mut w = Warnings::new();
+    match p7::Packet::read(&mut w, &written, &mut scratch[..]) {
+        Ok(p) => {
+            let again = seen7(&p);
+            if &again != seen {
+                return Err(format!("written out and read back it is a different value: {:?} vs {:?}", short(seen), short(&again)));
+            }
+            Ok(())
+        }
+        Err(e) => Err(format!("written out it is rejected on read-back: {:?} for {:?}", e, short(seen))),
+    }
+}
+
+fn short(s: &Seen) -> String {
+    let t = format!("{:?}", s);
+    if t.len() > 300 {
+        format!("{}...", &t[..300])
+    } else {
+        t
+    }
+}
+
+pub fn check_read7(data: &[u8], scratch_len: usize) -> Result<ReadStats, String> {
+    let mut st = ReadStats::default();
+    let mut can = take_canary(scratch_len);
+    let scratch_range = can.range();
+    let input_range = slice_range(data);
+    let mut w = Warnings::new();
+    let compressed_flag = data.len() >= 7 && data[0] & 0b0001_0000 != 0 && data[0] & 0b0010_0000 == 0 && data.len() <= 1400;
+    st.decompressed = compressed_flag;
+    {
+        let mut aux = take_canary(scratch_len);
+        let r = p7::Packet::decompress_if_needed(data, aux.window());
+        ensure!(aux.intact(), "0.7 decompress_if_needed wrote outside the scratch buffer");
+        let r = r.map_err(|_| ());
+        give_canary(aux);
+        if let Ok(true) = r {
+            ensure!(compressed_flag, "0.7 decompress_if_needed reports a decompression for a packet without the compression flag");
+        }
+    }
+    if !compressed_flag {
+        let mut w2 = Warnings::new();
+        if let Ok(p) = &p7::Packet::read_panic_on_decompression(&mut w2, data) {
+            check_slices7(p, input_range, (0, 0))?;
+        }
+    }
+    let res = p7::Packet::read(&mut w, data, can.window());
+    let seen = match &res {
+        Ok(p) => {
+            check_slices7(p, input_range, scratch_range)?;
+            Some(seen7(p))
+        }
+        Err(e) => {
+            st.error = Some(format!("{:?}", e));
+            None
+        }
+    };
+    if let Ok(p7::Packet::Connected(p7::ConnectedPacket { type_: p7::ConnectedPacketType::Chunks(_, n, payload), .. })) = &res {
+        let mut it = p7::ChunksIter::new(payload, *n);
+        let hint_len = it.len();
+        let mut cw = Warnings::new();
+        let mut steps = 0;
+        set_fuel(payload.len() as i64 + 8);
+        while let Some(c) = it.next_warn(&mut cw) {
+            burn();
+            steps += 1;
+            ensure!(in_bounds(c.data, slice_range(payload), (0, 0)), "0.7 chunk data lies outside the payload slice");
+            if let Some((seq, _)) = c.vital {
+                ensure!(seq < 1024, "0.7 chunk sequence {} out of range", seq);
+            }
+        }
+        unlimited_fuel();
+        ensure!(it.next_warn(&mut cw).is_none(), "0.7 chunk iterator yields again after returning None");
+        ensure!(hint_len == steps, "0.7 ChunksIter::len() = {} but it yields {} chunks", hint_len, steps);
+        st.chunks = steps;
+    }
+    drop(res);
+    ensure!(can.intact(), "0.7 Packet::read wrote outside the {}-byte scratch buffer it was given", scratch_len);
+    give_canary(can);
+    if let Some(seen) = seen {
+        st.accepted = true;
+        st.kind = kind_of(&seen);
+        rewrite7(&seen).map_err(|e| format!("accepted by the 0.7 reader but {}; input [{}]", e, hex(&data[..data.len().min(64)])))?;
+    }
+    Ok(st)
+}
+
+/// Entry point for fuzz targets and replays: all hints, both scratch sizes.
+pub fn check_bytes(data: &[u8], is7: bool) -> Result<ReadStats, String> {
+    let mut last = ReadStats::default();
+    for scratch in [1400usize, 2048] {
+        if is7 {
+            last = check_read7(data, scratch)?;
+        } else {
+            for hint in 0..3 {
+                last = check_read6(data, hint, scratch)?;
+            }
+        }
+    }
+    Ok(last)
+}
+
+// ---------------------------------------------------------------------------
+// Structured hostile inputs
+
+#[derive(Clone, Debug, Hash, Serialize, Deserialize)]
+pub enum Corrupt {
+    SetByte { pos: u16, val: u8 },
+    XorByte { pos: u16, xor: u8 },
+    Truncate(u16),
+    Extend(Vec<u8>),
+    /// header field corruptions by name
+    Flags(u8),
+    Ack(u16),
+    NumChunks(u8),
+    ToggleCompression,
+    /// overwrite the two (three) bytes of the k-th chunk header
+    ChunkHeader { k: u8, b0: u8, b1: u8, b2: u8 },
+    TokenByte { idx: u8, val: u8 },
+    ControlByte(u8),
+}
+
+#[derive(Clone, Debug, Hash, Serialize, Deserialize)]
+pub struct Hostile {
+    pub base: PCase,
+    pub corrupt: Vec<Corrupt>,
+    pub hint: u8,
+}
+
+fn corrupt_strategy() -> BoxedStrategy<Corrupt> {
+    let b = prop_oneof![Just(0u8), Just(0xff), Just(0x80), Just(0x7f), Just(1), any::<u8>()];
+    prop_oneof![
+        3 => (any::<u16>(), b.clone()).prop_map(|(pos, val)| Corrupt::SetByte { pos, val }),
+        2 => (any::<u16>(), 1u8..=255).prop_map(|(pos, xor)| Corrupt::XorByte { pos, xor }),
+        3 => any::<u16>().prop_map(Corrupt::Truncate),
+        2 => proptest::collection::vec(any::<u8>(), 1..=8).prop_map(Corrupt::Extend),
+        2 => (0u8..16).prop_map(Corrupt::Flags),
+        1 => (0u16..1024).prop_map(Corrupt::Ack),
+        2 => prop_oneof![Just(0u8), Just(1), Just(255), any::<u8>()].prop_map(Corrupt::NumChunks),
+        2 => Just(Corrupt::ToggleCompression),
+        3 => (0u8..8, any::<u8>(), any::<u8>(), any::<u8>()).prop_map(|(k, b0, b1, b2)| Corrupt::ChunkHeader { k, b0, b1, b2 }),
+        1 => (0u8..4, b).prop_map(|(idx, val)| Corrupt::TokenByte { idx, val }),
+        1 => (0u8..8).prop_map(Corrupt::ControlByte),
+    ]
+    .boxed()
+}
+
+fn apply_corrupt(mut d: Vec<u8>, c: &Corrupt, is7: bool) -> Vec<u8> {
+    let hdr = if is7 { 7 } else { 3 };
+    match c {
+        Corrupt::SetByte { pos, val } => {
+            if !d.is_empty() {
+                let p = pick(*pos, d.len());
+                d[p] = *val;
+            }
+        }
+        Corrupt::XorByte { pos, xor } => {
+            if !d.is_empty() {
+                let p = pick(*pos, d.len());
+                d[p] ^= xor;
+            }
+        }
+        Corrupt::Truncate(k) => {
+            let n = pick(*k, d.len() + 1);
+            d.truncate(n);
+        }
+        Corrupt::Extend(e) => d.extend_from_slice(e),
+        Corrupt::Flags(f) => {
+            if !d.is_empty() {
+                d[0] = if is7 { (d[0] & 0b1100_0011) | (f << 2) } else { (d[0] & 0x0f) | (f << 4) };
+            }
+        }
+        Corrupt::Ack(a) => {
+            if d.len() >= 2 {
+                d[0] = (d[0] & 0xfc) | (a >> 8) as u8;
+                d[1] = *a as u8;
+            }
+        }
+        Corrupt::NumChunks(n) => {
+            if d.len() >= 3 {
+                d[2] = *n;
+            }
+        }
+        Corrupt::ToggleCompression => {
+            if !d.is_empty() {
+                d[0] ^= if is7 { 0b0001_0000 } else { 0x80 };
+            }
+        }
+        Corrupt::ChunkHeader { k, b0, b1, b2 } => {
+            // walk the (uncompressed) chunk list as far as it is well-formed
+            let mut pos = hdr;
+            let mut i = 0;
+            while pos + 2 <= d.len() && i < *k {
+                let vital = d[pos] & 0x40 != 0;
+                let size = if is7 { (((d[pos] & 0x3f) as usize) << 6) | (d[pos + 1] & 0x3f) as usize } else { (((d[pos] & 0x3f) as usize) << 4) | (d[pos + 1] & 0xf) as usize };
+                pos += if vital { 3 } else { 2 } + size;
+                i += 1;
+            }
+            if pos + 3 <= d.len() {
+                d[pos] = *b0;
+                d[pos + 1] = *b1;
+                d[pos + 2] = *b2;
+            }
+        }
+        Corrupt::TokenByte { idx, val } => {
+            let i = *idx as usize;
+            if is7 {
+                if d.len() > 3 + i {
+                    d[3 + i] = *val;
+                }
+            } else if d.len() >= 4 {
+                let n = d.len();
+                d[n - 4 + i] = *val;
+            }
+        }
+        Corrupt::ControlByte(v) => {
+            if d.len() > hdr {
+                d[hdr] = *v;
+            }
+        }
+    }
+    d
+}
+
+fn check_hostile(h: &Hostile, is7: bool) -> PResult {
+    let (mut bytes, _, _) = write_case(&h.base, is7)?;
+    for c in &h.corrupt {
+        bytes = apply_corrupt(bytes, c, is7);
+    }
+    let st = if is7 { check_read7(&bytes, 1400)? } else { check_read6(&bytes, h.hint, 1400)? };
+    Ok(outcome(&st, !h.corrupt.is_empty()))
+}
+
+fn outcome(st: &ReadStats, hostile: bool) -> Outcome {
+    let err = st.error.as_deref();
+    let boring = matches!(err, Some("TooShort") | Some("TooLong"));
+    let mut o = Outcome::nt(hostile && (st.accepted || (err.is_some() && !boring)));
+    o = o.class_if(st.accepted, "accepted").class_if(st.decompressed, "decompression_path").class_if(st.chunks > 0, "chunks_iterated");
+    if st.accepted {
+        o = o.class(match st.kind {
+            "connless" => "accepted_connless",
+            "close" => "accepted_close",
+            "control" => "accepted_control",
+            _ => "accepted_chunks",
+        });
+    }
+    if let Some(e) = err {
+        o = o.class(match e {
+            "Compression" => "err_Compression",
+            "ControlMissing" => "err_ControlMissing",
+            "ShortConnless" => "err_ShortConnless",
+            "TokenMissing" => "err_TokenMissing",
+            "TooLong" => "err_TooLong",
+            "TooShort" => "err_TooShort",
+            "UnknownControl" => "err_UnknownControl",
+            "ControlResponseTokenMissing" => "err_ControlResponseTokenMissing",
+            "ControlTokenRequestTooShort" => "err_ControlTokenRequestTooShort",
+            "UnknownConnlessVersion" => "err_UnknownConnlessVersion",
+            _ => "err_other",
+        });
+    }
+    o
+}
+
+// crafted Huffman bodies
+
+#[derive(Clone, Debug, Hash, Serialize, Deserialize)]
+pub struct HuffCase {
+    /// plaintext length to compress (may expand beyond a packet after decompression)
+    pub plain_len: u16,
+    pub family: u8,
+    pub seed: u8,
+    pub truncate: Option<u16>,
+    pub flip: Option<(u16, u8)>,
+    pub header: [u8; 3],
+    pub token: [u8; 4],
+    pub hint: u8,
+}
+
+fn huff_strategy() -> impl Strategy<Value = HuffCase> {
+    (
+        prop_oneof![2 => 1380u16..1420, 2 => 1398u16..4000, 1 => 0u16..64],
+        0u8..5,
+        any::<u8>(),
+        proptest::option::weighted(0.4, any::<u16>()),
+        proptest::option::weighted(0.3, (any::<u16>(), 1u8..=255)),
+        any::<[u8; 3]>(),
+        any::<[u8; 4]>(),
+        0u8..3,
+    )
+        .prop_map(|(plain_len, family, seed, truncate, flip, header, token, hint)| HuffCase { plain_len, family, seed, truncate, flip, header, token, hint })
+}
+
+fn check_huff(h: &HuffCase, is7: bool) -> PResult {
+    let plain = crate::c05_packet_rt::content(h.family, h.plain_len as usize, h.seed);
+    let mut comp: Vec<u8> = Vec::with_capacity(plain.len() * 3 + 16);
+    HUFFMAN.compress(&plain, &mut comp).map_err(|_| "harness: compression buffer too small".to_string())?;
+    if let Some(t) = h.truncate {
+        let n = pick(t, comp.len() + 1);
+        comp.truncate(n);
+    }
+    if let Some((pos, x)) = h.flip {
+        if !comp.is_empty() {
+            let p = pick(pos, comp.len());
+            comp[p] ^= x;
+        }
+    }
+    let mut d = Vec::new();
+    if is7 {
+        // compression flag set, connless/control clear
+        d.push((h.header[0] & 0b0000_1011) | 0b0001_0000);
+        d.push(h.header[1]);
+        d.push(h.header[2]);
+        d.extend_from_slice(&h.token);
+    } else {
+        d.push((h.header[0] & 0b0100_0011) | 0x80);
+        d.push(h.header[1]);
+        d.push(h.header[2]);
+    }
+    d.extend_from_slice(&comp);
+    d.truncate(1400);
+    let st = if is7 { check_read7(&d, 1400)? } else { check_read6(&d, h.hint, 1400)? };
+    Ok(outcome(&st, true).class_if(h.plain_len as usize > 1397, "expands_beyond_packet"))
+}
+
+fn short_string(idx: u64) -> Vec<u8> {
+    if idx == 0 {
+        vec![]
+    } else if idx < 1 + 256 {
+        vec![(idx - 1) as u8]
+    } else if idx < 1 + 256 + 65536 {
+        let i = idx - 257;
+        vec![(i >> 8) as u8, i as u8]
+    } else {
+        let i = idx - 257 - 65536;
+        vec![(i >> 16) as u8, (i >> 8) as u8, i as u8]
+    }
+}
+
+const TAILS: [&[u8]; 4] = [&[], &[0x00], &[0xff, 0xff], &[0x04, 0x41, 0x00]];
+
+pub fn run(ctx: &Ctx) {
+    ctx.set_rule(
+        "exhaustive: every byte string of length 0..=3 x token hint {None,false,true} for 0.6 and (followed by each of 4 token/tail patterns) for 0.7, \
+         and every 3-byte string followed by each of 4 fixed tails; generated: valid packets of every kind with 0..3 corruptions (byte set/xor, \
+         truncation at any position, extension, flags, ack, num_chunks, compression flag toggled, chunk header bytes, token bytes, control byte), \
+         crafted Huffman bodies (plaintext 1380..4000 bytes, truncated, bit-flipped), random bytes 0..3000; non-trivial = a hostile input that the \
+         reader accepted or rejected with an error other than TooShort/TooLong; distinct by case hash (exhaustive sections: by construction)",
+    );
+    ctx.assume("scratch buffers of 1400 and 2048 bytes (the reader asserts >= 1400); read_panic_on_decompression only on packets without the compression flag (its documented precondition)");
+    let n_short = 1 + 256 + 65536 + (1u64 << 24);
+    ctx.exhaustive(
+        "short6",
+        n_short * 3,
+        |i| check_read6(&short_string(i / 3), (i % 3) as u8, 1400).map(|s| s.accepted || !matches!(s.error.as_deref(), Some("TooShort"))),
+        |i| json!({"bytes": hex(&short_string(i / 3)), "hint": i % 3}),
+    );
+    let tails_stride: u64 = if ctx.quick() { 16 } else { 1 };
+    ctx.sweep(
+        "short6_tails",
+        (1u64 << 24) * 4 * 3 / tails_stride,
+        !ctx.quick(),
+        |i| {
+            let i = i * tails_stride + (i % tails_stride);
+            let mut d = short_string(257 + 65536 + (i / 12));
+            d.extend_from_slice(TAILS[((i / 3) % 4) as usize]);
+            check_read6(&d, (i % 3) as u8, 1400).map(|s| s.accepted)
+        },
+        |i| json!({"head": hex(&short_string(257 + 65536 + (i / 12))), "tail": (i / 3) % 4, "hint": i % 3}),
+    );
+    // 0.7: the header is 7 bytes; sweep the three bit-field bytes with 4 token/tail patterns
+    const T7: [&[u8]; 4] = [&[], &[0xff, 0xff, 0xff, 0xff], &[1, 2, 3, 4, 4, 0x41, 0], &[0xff, 0xff, 0xff, 0xff, 5, 9, 9, 9, 9]];
+    ctx.exhaustive(
+        "short7",
+        n_short,
+        |i| check_read7(&short_string(i), 1400).map(|s| s.accepted),
+        |i| json!({"bytes": hex(&short_string(i))}),
+    );
+    ctx.sweep(
+        "short7_tails",
+        (1u64 << 24) * 4 / tails_stride,
+        !ctx.quick(),
+        |i| {
+            let i = i * tails_stride + (i % tails_stride);
+            let mut d = short_string(257 + 65536 + (i / 4));
+            d.extend_from_slice(T7[(i % 4) as usize]);
+            check_read7(&d, 1400).map(|s| s.accepted)
+        },
+        |i| json!({"head": hex(&short_string(257 + 65536 + (i / 4))), "tail": i % 4}),
+    );
+    for (is7, name) in [(false, "0.6"), (true, "0.7")] {
+        ctx.prop(
+            &format!("hostile/{}", name),
+            ctx.n(400_000, 8_000_000),
+            || (pcase_strategy(is7), proptest::collection::vec(corrupt_strategy(), 0..4), 0u8..3).prop_map(|(base, corrupt, hint)| Hostile { base, corrupt, hint }),
+            |h: &Hostile| check_hostile(h, is7),
+        );
+        ctx.prop(&format!("huffman_bodies/{}", name), ctx.n(100_000, 2_000_000), huff_strategy, |h: &HuffCase| check_huff(h, is7));
+        ctx.prop(
+            &format!("random/{}", name),
+            ctx.n(100_000, 2_000_000),
+            || {
+                (prop_oneof![3 => proptest::collection::vec(any::<u8>(), 0..40), 1 => proptest::collection::vec(any::<u8>(), 0..3000)], 0u8..3)
+            },
+            |(d, hint): &(Vec<u8>, u8)| {
+                let st = if is7 { check_read7(d, 1400)? } else { check_read6(d, *hint, 1400)? };
+                Ok(outcome(&st, true))
+            },
+        );
+    }
 }
